@@ -19,7 +19,7 @@ THEOREMS = ['C11_range_names', 'C11_range_ends', 'C11_range_single', 'C11_bitnam
             # verilog.py from TEXT (Model/VerilogText.v)
             'C11_vtext_lex_render', 'C11_vtext_parse_render', 'C11_vtext_ignored_irrelevant', 'C11_vtext_token_language', 'C11_vtext_lex_iff', 'C11_vtext_language',
             'C11_vtext_tokens_of_tree',
-            'C11_vtext_any_rendering', 'C11_vtext_parse_print', 'C11_vtext_open_ignored_rejected', 'C11_vtext_eof_line_comment_rejected',
+            'C11_vtext_any_rendering', 'C11_vtext_parse_print', 'C11_vtext_open_ignored_rejected', 'C11_vtext_lex_render_tail', 'C11_vtext_eof_line_comment_accepted',
             'C11_vtext_eof_comment_witness', 'C11_vtext_lexer_probes', 'C11_vtext_pin_dict', 'C11_vtext_pin_entry', 'C11_vtext_circuits',
             'C11_vtext_circuits_of_rendering', 'C11_text_module_consistent', 'C11_text_module_ports', 'C11_text_module_pin_in',
             'C11_text_module_pin_out', 'C11_text_module_assign', 'C11_text_module_outputs', 'C11_vtext_example']
@@ -318,12 +318,21 @@ def run(ck):
     nc, nd = vt.name_cases(trng, ck.scale(60, 400))
     vcases += nc
     vmeta += nd
-    # a netlist of the supported subset that ends in a line comment without line break: recorded, see the report (lark raises)
+    # a netlist that ends in a line comment without line break is the same netlist (the COMMENT terminal needs no NEWLINE since the repair)
     eof_probe = {}
-    for tail in ('// end', '// end\n', '/* end */'):
+    for tail in ('// end', '// end\n', '// end\r', '//', '/* end */'):
         tr, exc = vt.raw_tree('module m (a); input a; endmodule ' + tail)
         eof_probe[tail] = 'accepted' if tr is not None else 'raises ' + exc
     ck.cov['vtext_eof_comment_probe'] = eof_probe
+    for text, lib in vnet_texts[:ck.scale(12, 100)]:
+        t0, _ = vt.raw_tree(text)
+        t1, exc = vt.raw_tree(text.rstrip('\n') + trng.choice([' // end', '// synopsys', ' //', '\n// last line\r']))
+        ck.count(1, 'vtext:eof-comment')
+        if t0 is not None and t1 != t0:
+            what = ('a generated netlist followed by a last "//" comment WITHOUT line break ' +
+                    (f'is rejected ({exc})' if t1 is None else 'is read as a different tree') + '; with a final line break it is read')
+            fails.append(('verilog-text:eof-comment', what, {'component': 'verilog.GRAMMAR COMMENT terminal', 'input': {'kind': 'vlog-text', 'text': text[-200:] + ' // end'},
+                                                          'actual': exc or 'different tree'}))
     vsize = 60
     vchunks = [vcases[i:i + vsize] for i in range(0, len(vcases), vsize)]
     # verilog.parse as a whole
